@@ -33,7 +33,7 @@ ASSUMPTIONS = [
     "items of configuration lists are judged when loaded or inserted (the statement), not by a later validate()",
 ]
 REQUIRED = ["has:cross-validator", "load:returned", "load:raised", "flag:off", "flag:on", "has:schema-validator", "has:required", "validate:raises",
-            "validate:returns", "item:breach", "item:ok", "route:load_tree", "route:loads"]
+            "validate:returns", "item:breach", "item:ok", "route:load_tree", "route:loads", "item:reinserted"]
 LEVEL_TEXT = (
     "Generated schemas/validators/flags/trees with an independent ok(state) predicate and a validator invocation "
     "log; kills mutants that skip recursion, use any() over flags, swallow errors in collecting mode or forget the "
@@ -184,7 +184,78 @@ def _check_validate(world, cfg, R, when):
         R.check(not why, "validate-iff", "misses", lambda: "%s: validate() returned although: %s" % (when, "; ".join(why[:3])))
 
 
+def exhaustive(tier):
+    """Items of a list of configurations that already belong (or belonged) to the list, made invalid in place - through a
+    schema validator over two fields, or by resetting a required field - and put into the list again."""
+    for configtype in (False, True):
+        for n in (1, 2, 3):
+            for j in range(n):
+                for how in ("cross-validator", "required-reset"):
+                    for taken_out in (False, True):
+                        for what in ("append", "insert0", "insert-end", "setitem", "extend1", "iadd", "assign-list"):
+                            yield {"mode": "reinsert", "configtype": configtype, "n": n, "j": j, "how": how, "taken_out": taken_out, "what": what}
+
+
+def _reinsert_case(case, R):
+    cc = sandbox._state["cc"]
+    item = cc.Schema()
+    item.lo = cc.IntField(default=0)
+    item.hi = cc.IntField(default=10)
+    item.name = cc.StringField(required=True)
+    calls = []
+
+    @cc.validator(item)
+    def lo_le_hi(cfg):
+        calls.append(id(cfg))
+        if cfg.lo is not None and cfg.hi is not None and cfg.lo > cfg.hi:
+            raise ValueError("lo must not exceed hi")
+    schema = cc.Schema()
+    schema.items = cc.ListField(cc.make_type(item, "Item", module=__name__) if case["configtype"] else item)
+    cfg = schema()
+    cfg.items = [{"lo": k, "hi": k + 5, "name": "n%d" % k} for k in range(case["n"])]
+    lst = cfg.items
+    victim = lst[case["j"]]
+    if case["taken_out"]:
+        lst.pop(case["j"])
+    if case["how"] == "cross-validator":
+        victim.lo = 99  # each field is fine on its own, the item as a whole is not
+    else:
+        cc.reset_value(victim, "name")  # a required field of the item is unset again
+    del calls[:]
+    what = case["what"]
+    try:
+        if what == "append":
+            lst.append(victim)
+        elif what == "insert0":
+            lst.insert(0, victim)
+        elif what == "insert-end":
+            lst.insert(len(lst), victim)
+        elif what == "setitem":
+            if not lst:
+                return
+            lst[0] = victim
+        elif what == "extend1":
+            lst.extend([victim])
+        elif what == "iadd":
+            lst += [victim]
+        else:
+            cfg.items = [victim]
+        raised = None
+    except Exception as exc:
+        raised = exc
+    R.label("item:reinserted")
+    R.nontrivial = True
+    R.check(isinstance(raised, cc.ValidationError), "item-rule", "reinsert:%s:%s" % (case["how"], what),
+            lambda: "an item that %s was put into its list again with %s: %s" % (
+                "violates its schema validator" if case["how"] == "cross-validator" else "lacks a required field", what,
+                "the call returned normally" if raised is None else "raised %r" % (raised,)))
+    if case["how"] == "cross-validator":
+        R.check(id(victim) in calls, "ran", "reinsert:" + what, "the item schema's validator was not run for the inserted item")
+
+
 def run_case(case, R):
+    if case.get("mode") == "reinsert":
+        return _reinsert_case(case, R)
     cc = sandbox._state["cc"]
     spec = case["spec"]
     if _has(spec, lambda c, d: c["kind"] == "featureflag"):
